@@ -153,8 +153,12 @@ def run_call(c):
         return {'err': type(e).__name__, 'msg': str(e)[:200]}
     out = {'keys': sorted(r.keys()), 'arrays': [], 'names': [], 'bad': []}
 
+    max_rows = int(c.get('max_rows', 1 << 30))
+
     def put(name, a, scale=1):
-        rows = to_int_rows(a, scale)
+        # a result with more rows than requests is wrong whatever the rows hold: keep the evidence bounded
+        out.setdefault('nrows', []).append(int(np.asarray(a).shape[0]))
+        rows = to_int_rows(np.asarray(a)[:max_rows], scale)
         if rows is None:
             out['bad'].append(name)
             rows = []
